@@ -83,6 +83,10 @@ func c11(env *core.Env) {
 	}
 	w.rt = ociauth.NewStdTransport(ociauth.StdTransportParams{Config: worldConfig{w: w, failFor: failFor}, Transport: w.tr})
 	ntasks := c.Range("ntasks", 1, 3)
+	maxCalls := 5
+	if env.Tier == "thorough" && c.Bool("deep", 1, 3) {
+		ntasks, maxCalls = c.Range("ntasks.deep", 3, 8), 8
+	}
 	type planned struct {
 		host              string
 		required, desired string
@@ -92,7 +96,7 @@ func c11(env *core.Env) {
 	plans := make([][]planned, ntasks)
 	targets := []string{hosts[0].name, hosts[1].name, hosts[0].name, hosts[1].name, "other.example"}
 	for t := range plans {
-		for i, n := 0, c.Range("ncalls", 1, 5); i < n; i++ {
+		for i, n := 0, c.Range("ncalls", 1, maxCalls); i < n; i++ {
 			p := planned{host: targets[c.Int("target", len(targets))], required: scopeLattice[c.Int("required", len(scopeLattice))]}
 			if c.Bool("desired", 1, 4) {
 				p.desired = scopeLattice[c.Int("desired.scope", len(scopeLattice)-1)]
